@@ -1200,7 +1200,7 @@ package scipipe
 //@ func (*BaseProcess).receiveOnInPorts(p) (ips, inPortsOpen)
 //@   props C04 C08
 //@   requires wf: wfInPorts(p.inPorts)
-//@   modifies chan, new(map[string]*FileIP)
+//@   modifies chanrecv, new(map[string]*FileIP)
 //@   ensures fresh: fresh(ips) && ips != nil
 //@   ensures one-receive-per-port: forall k string :: k in p.inPorts ==> chanRecvA(p.inPorts[k].Chan) == old(chanRecvA(p.inPorts[k].Chan)) + 1 && chanRecvN(p.inPorts[k].Chan) == old(chanRecvN(p.inPorts[k].Chan)) + ite(old(chanRecvN(p.inPorts[k].Chan)) < chanTotal(p.inPorts[k].Chan), 1, 0)
 //@   ensures open-iff-every-port-delivered: inPortsOpen <==> (forall k string :: k in p.inPorts ==> old(chanRecvN(p.inPorts[k].Chan)) < chanTotal(p.inPorts[k].Chan))
@@ -1226,7 +1226,7 @@ package scipipe
 //@ func (*BaseProcess).receiveOnInParamPorts(p) (params, paramPortsOpen)
 //@   props C04 C08
 //@   requires wf: wfInParamPorts(p.inParamPorts)
-//@   modifies chan, new(map[string]string)
+//@   modifies chanrecv, new(map[string]string)
 //@   ensures fresh: fresh(params) && params != nil
 //@   ensures one-receive-per-port: forall k string :: k in p.inParamPorts ==> chanRecvA(p.inParamPorts[k].Chan) == old(chanRecvA(p.inParamPorts[k].Chan)) + 1 && chanRecvN(p.inParamPorts[k].Chan) == old(chanRecvN(p.inParamPorts[k].Chan)) + ite(old(chanRecvN(p.inParamPorts[k].Chan)) < chanTotal(p.inParamPorts[k].Chan), 1, 0)
 //@   ensures open-iff-every-port-delivered: paramPortsOpen <==> (forall k string :: k in p.inParamPorts ==> old(chanRecvN(p.inParamPorts[k].Chan)) < chanTotal(p.inParamPorts[k].Chan))
@@ -1293,7 +1293,7 @@ package scipipe
 //@ func NewTask(workflow, process, name, cmdPat, inIPs, outPathFuncs, portInfos, params, tags, prepend, customExecute, cores) (t)
 //@   props C04 C06 C08 C09 C17 C18
 //@   requires wf: wfJoinInputs(portInfos, inIPs)
-//@   modifies fresh, chan, locked
+//@   modifies fresh, chanrecv, new(chan), locked
 //@   ensures fresh: t != nil && fresh(t)
 //@   ensures identity[C04,C06]: t.Name == name && t.InIPs == inIPs && t.Params == params && t.Tags == tags && t.cores == cores && t.workflow == workflow && t.Process == process && t.CustomExecute == customExecute && t.portInfos == portInfos
 //@   ensures done-unbuffered[C08]: t.Done != nil && fresh(t.Done) && chanCap(t.Done) == 0 && chanSentN(t.Done) == 0 && !chanClosed(t.Done)
